@@ -14,7 +14,7 @@
   * the caller's `select` in `sendBatchRequest` -> `cancel`, `timeout`, `wake`, `close`
   An entry is identified by its handle = index in `State.entries` (pointer identity in Go).
   Ghost fields (no counterpart in the code; only written, never read by the transitions): `Entry.ncomp`, `Entry.nret`,
-  `Entry.got`, `Slot.gen`, `State.allocLog`, `State.respLog`, `State.wireLog`, `State.loserSeen`.
+  `Entry.got`, `Slot.gen`, `Stream.gen`, `Stream.sib`, `State.allocLog`, `State.respLog`, `State.wireLog`, `State.loserSeen`.
 -/
 import ClientGoVerif.Generated.BatchMuxConsts
 namespace CGV.BatchMux
@@ -71,6 +71,8 @@ structure Stream where
   gen : Nat                      -- ghost: number of re-creations
   lep : Nat                      -- the `epoch` local variable of this stream's batchRecvLoop
   sendFail : Bool := false       -- next `Send` on this stream fails (input)
+  sib : Bool := false            -- ghost: a sibling stream of the same connection won the epoch CAS since this
+                                 -- stream was created / last re-created (only then can its local epoch be stale)
   deriving Repr
 
 structure Client where
@@ -379,11 +381,14 @@ def kill (s : State) (cid fwd : Nat) : State :=
       let s := failSlots s cid (fun sl => sl.fwd = fwd) .stream
       { s with
         clients := updClient s.clients cid (fun c => { c with epoch := c.epoch + 1 }),
-        streams := s.streams.map fun x => if x.cid = cid ∧ x.fwd = fwd then { x with gen := x.gen + 1, lep := x.lep + 1 } else x }
+        streams := s.streams.map fun x =>
+          if x.cid = cid ∧ x.fwd = fwd then { x with gen := x.gen + 1, lep := x.lep + 1, sib := false }
+          else if x.cid = cid then { x with sib := true } else x }
     else
       { s with
         loserSeen := true,
-        streams := s.streams.map fun x => if x.cid = cid ∧ x.fwd = fwd then { x with gen := x.gen + 1, lep := clientEpoch s.clients cid } else x }
+        streams := s.streams.map fun x =>
+          if x.cid = cid ∧ x.fwd = fwd then { x with gen := x.gen + 1, lep := clientEpoch s.clients cid, sib := false } else x }
 
 /-! ## steps -/
 
